@@ -48,11 +48,15 @@ def gen(rng, tier):
                 r["samples"] = rng.sample(pool, rng.randint(1, len(pool)))
                 if rng.random() < 0.1:
                     r["samples"] = ["zz", "yy"]
+                elif rng.random() < 0.12:
+                    r["samples"] = []  # the empty set (what an empty --samples-file gives): nobody, not everybody
             if rng.random() < 0.4:
                 pool = [v["id"] for v in c["variants"]] + ["nosuch"]
                 r["ids"] = rng.sample(pool, rng.randint(1, len(pool)))
                 if rng.random() < 0.1:
                     r["ids"] = ["nosuch"]
+                if rng.random() < 0.35:
+                    r["max"] = rng.randint(0, len(c["variants"]) + 1)  # documented as ignored when IDs are given
             elif rng.random() < 0.3:
                 r["max"] = rng.randint(0, len(c["variants"]) + 1)
             restrs.append(r)
